@@ -1081,15 +1081,12 @@ func (a *Assembler) cleanSG(half *halfconnection, ac AssemblerContext) {
 	half.saved = nil
 	var saved *page
 	for _, r := range a.cacheSG.all[ndx:] {
-		preConvertLen := r.length()
 		first, last, nb := r.convertToPages(a.pc, skip, ac)
 
-		// Update skip count as we move from one container to the next.
-		if delta := preConvertLen - r.length(); delta > skip {
-			skip = 0
-		} else {
-			skip -= delta
-		}
+		// The offset lies in the first kept container only; every later one is kept whole.
+		// (Deriving this from the container's change of length does not work for a live
+		// packet, which is copied into new pages and keeps its own length.)
+		skip = 0
 
 		if half.saved == nil {
 			half.saved = first
